@@ -57,6 +57,7 @@ pub mod chacha {
         pub aad: [u8; AAD_CAP],
         pub len: usize,
         pub wbyte: u8,
+        pub tag: [u8; 16],
         pub ok: bool,
     }
     pub const NO_CALL: AeadCall = AeadCall {
@@ -68,6 +69,7 @@ pub mod chacha {
         aad: [0; AAD_CAP],
         len: 0,
         wbyte: 0,
+        tag: [0; 16],
         ok: false,
     };
     pub static mut CALLS: [AeadCall; REC_CAP] = [NO_CALL; REC_CAP];
@@ -134,8 +136,9 @@ pub mod chacha {
         }
     }
 
-    fn open(xchacha: bool, key: &[u8; 32], nonce: &[u8], aad: &[u8], buffer: &mut [u8], _tag: &Tag) -> Result<(), Error> {
+    fn open(xchacha: bool, key: &[u8; 32], nonce: &[u8], aad: &[u8], buffer: &mut [u8], tag: &Tag) -> Result<(), Error> {
         let mut c = record(true, xchacha, key, nonce, aad, buffer);
+        c.tag = tag.0;
         let ok = unsafe {
             match DEC_MODE {
                 1 => true,
